@@ -123,11 +123,26 @@ def build_dataset(case):
   preprocessor that applies the whole chain, whatever was called before).
   """
   raw = build_raw(case)
-  prep = cds.BatchPreprocessor()
-  for p in case['preps']:
-    prep = prep.append(prep_fn(p))
+  given = case.get('fns_given')
+  if given and case['preps']:
+    # the chain handed to the constructor in one go, as the Iterable its
+    # signature asks for: a generator (one-shot), or a list the caller empties
+    # afterwards; the last function is appended afterwards in half of the cases
+    head = case['preps'] if given.endswith('all') else case['preps'][:-1]
+    fns = [prep_fn(p) for p in head]
+    prep = cds.BatchPreprocessor((f for f in list(fns)) if given.startswith('gen') else fns)
+    if given.startswith('list'):
+      fns.clear()
     if case.get('warm') and case['n'] > 0:
       prep({k: v[:1] for k, v in raw.items()})
+    if not given.endswith('all'):
+      prep = prep.append(prep_fn(case['preps'][-1]))
+  else:
+    prep = cds.BatchPreprocessor()
+    for p in case['preps']:
+      prep = prep.append(prep_fn(p))
+      if case.get('warm') and case['n'] > 0:
+        prep({k: v[:1] for k, v in raw.items()})
   ds = fedjax.ClientDataset(raw, prep)
   eff = raw
   if case.get('slice'):
@@ -232,6 +247,8 @@ def run_plain(case):
     # documented form: hparams object overridden by keyword arguments
     view = ds.batch(fedjax.BatchHParams(batch_size=b + 3, drop_remainder=not drop),
                     batch_size=b, drop_remainder=drop)
+  elif case['call'] == 'positional':
+    view = ds.batch(fedjax.BatchHParams(b, drop))
   else:
     view = ds.batch(fedjax.BatchHParams(batch_size=b, drop_remainder=drop))
   if case.get('abandoned_first'):
@@ -293,6 +310,8 @@ def run_padded(case):
   elif case['call'] == 'override':
     view = ds.padded_batch(fedjax.PaddedBatchHParams(batch_size=b + 1, num_batch_size_buckets=k + 2),
                            batch_size=b, num_batch_size_buckets=k)
+  elif case['call'] == 'positional':
+    view = ds.padded_batch(fedjax.PaddedBatchHParams(b, k))
   else:
     view = ds.padded_batch(fedjax.PaddedBatchHParams(batch_size=b, num_batch_size_buckets=k))
   if case.get('abandoned_first'):
@@ -354,7 +373,7 @@ def case_strategy(draw, tier, padded):
       min_size=0, max_size=2))
   preps = draw(st.lists(st.sampled_from(PREPS), min_size=0, max_size=3))
   case = {'n': n, 'batch_size': b, 'features': feats, 'preps': preps,
-          'call': draw(st.sampled_from(['kwargs', 'hparams', 'override']))}
+          'call': draw(st.sampled_from(['kwargs', 'hparams', 'override', 'positional']))}
   if draw(st.integers(0, 3)) == 0:
     bound = st.one_of(st.none(), st.integers(-n - 2, n + 2))
     step = draw(st.sampled_from([None, 1, 2, 3, -1, -2, 5]))
@@ -362,6 +381,8 @@ def case_strategy(draw, tier, padded):
     case['parent_used_first'] = draw(st.booleans())
   if preps and draw(st.booleans()):
     case['warm'] = True
+  if preps and draw(st.integers(0, 3)) == 0:
+    case['fns_given'] = draw(st.sampled_from(['gen_all', 'gen_head', 'list_all', 'list_head']))
   if draw(st.integers(0, 2)) == 0:
     case['layout'] = 'F'
   if draw(st.integers(0, 3)) == 0:
@@ -391,6 +412,8 @@ def labels(case):
     ls.append('preprocessor_used_before_append')
   if case.get('abandoned_first'):
     ls.append('first_pass_abandoned')
+  if case.get('fns_given') and case['preps']:
+    ls.append('preprocessor_chain_from_' + ('generator' if case['fns_given'].startswith('gen') else 'list_emptied_later'))
   ls.append('N=0' if n == 0 else ('B>N' if b > n else ('B|N' if n % b == 0 else 'B∤N')))
   if case.get('buckets', 1) > 1:
     ls.append('buckets>1')
